@@ -125,6 +125,11 @@ def is_not_empty(v):
     return v is not sh.EMPTY
 
 
+_is_not_finite = np.frompyfunc(lambda v: isinstance(
+    v, (float, np.floating)
+) and not np.isfinite(v), 1, 1)
+
+
 def wrap_impure_func(func):
     def wrapper(compiling, *args, **kwargs):
         return sh.NONE if compiling else func(*args, **kwargs)
@@ -140,6 +145,12 @@ def wrap_func(func, ranges=False):
             res = func(*args, **kwargs)
             if isinstance(res, (float, np.floating)) and not np.isfinite(res):
                 return np.asarray([[Error.errors['#NUM!']]], object)
+            if isinstance(res, np.ndarray) and res.dtype.kind in 'fO':
+                # Non-finite elements of an array are #NUM! too.
+                b = _is_not_finite(res).astype(bool)
+                if b.any():
+                    res = res.astype(object).view(res.__class__)
+                    res[b] = Error.errors['#NUM!']
             return res
         except FoundError as ex:
             return np.asarray([[ex.err]], object)
